@@ -27,8 +27,9 @@ func genPool(t *rapid.T, prop string) *PoolProg {
 	case "C09":
 		n := rapid.IntRange(2, 5).Draw(t, "n")
 		p.Kind, p.RR, p.Min, p.Max, p.WM = "rr", true, n, n, 100
-		p.G = rapid.IntRange(2, 6).Draw(t, "rg")
-		p.Iter = n * rapid.IntRange(1, 6).Draw(t, "k")
+		p.G = rapid.IntRange(2, 8).Draw(t, "rg")
+		p.Iter = n * rapid.SampledFrom([]int{1, 2, 5, 40, 200, 400}).Draw(t, "k")
+		p.Pert = rapid.SampledFrom([]int{0, 0, 1, 2}).Draw(t, "rrpert") // unperturbed tight loops overlap best
 		p.Hold = 0
 		return p
 	case "C03":
